@@ -473,14 +473,21 @@ def break_xor_start_block_family() -> list[list]:
 def loop_start_block_family() -> list[list]:
     """Deterministic family (beyond F): a loop whose body starts directly with a fork."""
     out = []
-    for kind, nb in [("xor", 2), ("xor", 3), ("and", 2), ("or", 2), ("and", 3), ("or", 3)]:
+    for kind, nb in [("xor", 2), ("xor", 3), ("and", 2), ("or", 2), ("and", 3), ("or", 3),
+                     ("loop", 1), ("loop", 2)]:
         for tail in (True, False):
             for pre2 in (False, True):
-                if not tail and kind in ("and", "or"):
-                    continue                      # body would end in the fork as well
+                if not tail and kind in ("and", "or", "loop"):
+                    continue                      # body would end in the block as well
                 nm = _Names()
                 pre = [nm()] + ([nm()] if pre2 else [])
-                blk = (kind, [[nm()] + ([nm()] if i == 0 else []) for i in range(nb)])
+                if kind == "loop":
+                    # the inner loop opens the outer body (its cycle passes through the
+                    # outer loop's start event)
+                    inner = [nm(), nm()] if nb == 1 else [nm(), ("xor", [[nm()], [nm()]]), nm()]
+                    blk: tuple = ("loop", inner)
+                else:
+                    blk = (kind, [[nm()] + ([nm()] if i == 0 else []) for i in range(nb)])
                 out.append(pre + [("loop", [blk] + ([nm()] if tail else [])), nm()])
     return out
 
